@@ -10,7 +10,7 @@ NAME=$1; PATCH=$(readlink -f "$2"); shift 2
 MT=/tmp/mt/$NAME
 rm -rf "$MT"; mkdir -p "$MT"
 git -C /repo worktree add -q --detach "$MT/repo" HEAD || exit 3
-git -C "$MT/repo" apply "$PATCH" || { echo "patch does not apply"; git -C /repo worktree remove --force "$MT/repo"; exit 3; }
+git -C "$MT/repo" apply "$PATCH" 2>/dev/null || ( cd "$MT/repo" && patch -p1 -F3 -s < "$PATCH" ) || { echo "patch does not apply"; git -C /repo worktree remove --force "$MT/repo"; exit 3; }
 rsync -a --exclude 'harness/target*' --exclude '.git' --exclude 'work/tree/cache-*' --exclude 'replays' /verif/ "$MT/verif/"
 sed -i "s#/repo/#$MT/repo/#g" "$MT/verif/harness/Cargo.toml"
 cp /repo/Cargo.lock "$MT/verif/harness/Cargo.lock" 2>/dev/null
